@@ -130,6 +130,8 @@ def run_scenarios(binary, scenarios, env=None):
     e = dict(os.environ)
     if env:
         e.update(env)
+    if os.environ.get("VERIF_TIER") == "thorough" or os.environ.get("VS_THOROUGH"):
+        e.setdefault("VS_MAX_PATHS", "200000")
     p = subprocess.run([binary] + list(scenarios), stdout=subprocess.PIPE, stderr=subprocess.PIPE, text=True, env=e)
     if p.returncode != 0:
         raise RuntimeError("harness %s %s failed (%d): %s" % (binary, scenarios, p.returncode, p.stderr[-2000:]))
